@@ -344,8 +344,7 @@ theorem tick_idem (T c : Time) (s : HState) : tick T c (tick T c s) = tick T c s
   · simp only [he, if_true]
     by_cases hr : s.retries = 0
     · simp only [hr, if_true]
-      have : expired T c { s with remove := true } := he
-      simp [this, hr]
+      simp
     · simp only [hr, if_false]
       have : ¬ expired T c { s with retries := s.retries - 1, start := c } := by
         unfold expired; simp
